@@ -27,7 +27,7 @@ type bbKey struct {
 type bbBallotDesc struct {
 	Height  int64
 	Round   uint64
-	Kind    string // init, initX (conflicting fact), initExpel, sc, scX (conflicting suffrage-confirm fact), accept, acceptX, acceptExpel
+	Kind    string // init, initX (conflicting fact), initExpel, sc, scX (conflicting suffrage-confirm fact), accept, acceptX, acceptExpel, initY/acceptY (third fact)
 	Node    int    // signer index; n = foreign node
 	ExpelBy string // full, one, foreign, expired (who signed the expel operation carried by the ballot)
 	Key     string // "", "wrongkey": node address signed with the foreign node's key
@@ -261,6 +261,10 @@ func (w *bbWorld) build(d bbBallotDesc) (bl base.Ballot, ok bool) {
 		ex := w.expels(d.Height, "full")
 
 		return isaac.NewACCEPTBallot(w.initExpelVP(d.Height, d.Round), signACCEPT(w.acceptFact(d.Height, d.Round, 0, gen.ExpelFactHashes(ex))), ex), true
+	case "initY": // a third fact for the point (three-way splits); added for C04, not in any kind list
+		return isaac.NewINITBallot(prevVP, signINIT(w.initFact(d.Height, d.Round, 2, nil)), nil), true
+	case "acceptY":
+		return isaac.NewACCEPTBallot(w.initVP(d.Height, d.Round), signACCEPT(w.acceptFact(d.Height, d.Round, 2, nil)), nil), true
 	}
 
 	return nil, false
